@@ -11,7 +11,7 @@
      (inputs …) (args …): see below.
    (spec <line>) selects the declarative oracle. *)
 From Coq Require Import List NArith Bool String.
-From Verif Require Import common.Sexp c16.Stream c16.StreamPos c16.Codec c16.Inputs c16.InputsSpec c16.Args.
+From Verif Require Import common.Sexp c16.Stream c16.StreamPos c16.Codec c16.Inputs c16.InputsSpec c16.Args c16.Fromstream.
 Import ListNotations.
 Open Scope N_scope.
 
@@ -34,7 +34,17 @@ Definition stream_line (spec : bool) (e : sexp) : sexp :=
                 let fin := match en with
                            | EndEOF => if Nat.eqb k (List.length toks) then End else Err
                            | EndErr => Err end in
-                judge (SList [enc_final fin; SList (map enc_event (events_before k ds))]) got
+                (* on a complete stream also: the transcription of jq's fromstream rebuilds the documents
+                   from these events (proved in general: C16_fromstream_events; here it is replayed on the concrete case) *)
+                let fs_ok := match fin with
+                             | End => if forallb nodup_keys ds then
+                                        match fromstream_model (events_before k ds) with
+                                        | Some ds' => sexp_eqb (SList (map enc_value ds')) (SList (map enc_value ds))
+                                        | None => false end
+                                      else true
+                             | _ => true end in
+                if fs_ok then judge (SList [enc_final fin; SList (map enc_event (events_before k ds))]) got
+                else A "fromstream-model-does-not-rebuild"
             | None => A "undecodable-docs"
             end
           else
